@@ -614,7 +614,11 @@ func (e *Exec) numberCalls(root ast.Node, info *types.Info) {
 		if !ok {
 			return true
 		}
-		if callee := e.calleeOf(c, info); callee != nil {
+		callee := e.calleeOf(c, info)
+		if callee == nil {
+			callee = e.modelCallee(c, info)
+		}
+		if callee != nil {
 			cnt[callee.Name]++
 			e.callOrd[c] = fmt.Sprintf("%s#%d", callee.Name, cnt[callee.Name])
 		}
